@@ -30,7 +30,7 @@ import numpy as np
 
 from ..cert import DM, chol_factor, frac_json, repair_povm
 from ..common import CorrespondenceBroken, InfraError
-from ..exact import Pure, call_rng, describe, present_list, vary_ensemble
+from ..exact import Pure, call_rng, describe, present_list, strict_fp_call, vary_ensemble
 from ..pool import Result, run_pool, worker_driver, fold
 from .. import qgen
 
@@ -52,7 +52,10 @@ RULE = ("bipartite ensembles (2..4 states on 2x2 and 2x3 [thorough: also 3x2], r
         "ensembles of the kinds random / prod_ent has some states made real-valued (real-dtype first element followed by complex ones, or the reverse; also "
         "computational basis vectors); one in eight ensembles with k >= 3 has a prior with an exact zero; uniform priors explicitly or as None; the caller's list, "
         "arrays and priors must be untouched by every call and a repeated call on the same objects (one in four PPT calls, one in three level-1 hierarchy calls on "
-        "2x2) must return the same value")
+        "2x2) must return the same value; "
+        "same-object stream: ppt_distinguishability (dual form, both parties) and symmetric_extension_hierarchy (level 1, 2x2, kets: one corpus and one seeded ensemble) on a list that holds ONE array object "
+        "in two slots against the same list with an equal copy in the second slot (corpus: Bell states, then seeded 2x2 ensembles from ctx.rng.spawn): same value within 1e-7 (cvxopt) / 1e-6 (scs), same exception class; "
+        "strict-fp stream (non-solver helper only): toqito.channels.partial_transpose on pure / mixed / zero / integer matrices evaluated in the default state and under harness.exact.strict_fp_call: equal arrays")
 ASSUMPTIONS = [
     "toqito computes with the float inputs it is given; the instance certified is their exact dyadic image (difference <= 1e-15 relative)",
     "tolerance 2e-5 on CVXOPT-solved values (ppt_distinguishability), 1e-3 on the SCS-solved hierarchy values (cvxpy default solver), as declared in DESIGN.md 4.4",
@@ -1561,6 +1564,70 @@ def check_args(ctx):
 # ------------------------------------------------------------------------------------------------
 
 
+def work_same_object(task, res: Result):
+    """same-object and strict-fp streams (see RULE).  task = (kind, payload)"""
+    from toqito.channels import partial_transpose as toq_pt
+    from toqito.state_opt import ppt_distinguishability, symmetric_extension_hierarchy
+    warnings.filterwarnings("ignore")
+    kind, payload = task
+    if kind == "pt":
+        X, sys, dims = payload
+        X = np.asarray(X)
+        desc = {"fn": "same_object", "kind": kind, "X": X, "sys": sys, "dims": list(dims)}
+        res.case(desc, True, "strict-fp/partial_transpose")
+        try:
+            v0 = ("ok", np.asarray(toq_pt(X.copy(), [sys], list(dims))))
+        except Exception as e:  # noqa: BLE001
+            v0 = ("raise", f"{type(e).__name__}: {str(e)[:200]}")
+        v1 = strict_fp_call(lambda: np.asarray(toq_pt(X.copy(), [sys], list(dims))))
+        if v0[0] != v1[0] or (v0[0] == "ok" and not (v0[1].shape == v1[1].shape and np.array_equal(v0[1], v1[1]))) or (v0[0] == "raise" and v0[1].split(":")[0] != v1[1].split(":")[0]):
+            res.violation(f"partial_transpose: value depends on NumPy's floating-point error state: {str(v0[1])[:60]!r} in the default state, {str(v1[1])[:80]!r} under np.seterr(invalid/divide/over='raise')",
+                          {"function": "partial_transpose", "args": desc, "stream": "strict-fp", "impl_default_state": repr(v0[1])[:300], "impl_strict_state": repr(v1[1])[:300]})
+        return
+    states, i, j, fname, sys, probs = payload
+    states = [np.asarray(x) for x in states]
+    desc = {"fn": "same_object", "kind": kind, "states": states, "i": i, "j": j, "function": fname, "sys": sys, "probs": probs}
+    res.case(desc, True, f"same-object/{fname}")
+    shared = [x.copy() for x in states]
+    shared[j] = shared[i]                      # ONE object in slots i and j
+    copies = [x.copy() for x in states]
+    copies[j] = copies[i].copy()               # equal values, distinct objects
+    if fname == "ppt_distinguishability":
+        call, tol = (lambda L: float(np.real(ppt_distinguishability(vectors=L, subsystems=[sys], dimensions=[2, 2], probs=probs, primal_dual="dual")[0]))), 1e-7
+    else:
+        call, tol = (lambda L: float(np.real(symmetric_extension_hierarchy(L, probs=probs, level=1, dim=[2, 2])))), 1e-6
+    outs = []
+    for L in (shared, copies):
+        try:
+            outs.append(("ok", call(L)))
+        except Exception as e:  # noqa: BLE001
+            outs.append(("raise", f"{type(e).__name__}: {str(e)[:200]}"))
+    (s0, v0), (s1, v1) = outs
+    if s0 != s1 or (s0 == "ok" and not abs(v0 - v1) <= tol) or (s0 == "raise" and v0.split(":")[0] != v1.split(":")[0]):
+        res.violation(f"{fname}: a list holding the same array object in slots {i} and {j} gives {str(v0)[:80]!r}, the same list with an equal copy in slot {j} gives {str(v1)[:80]!r}",
+                      {"function": fname, "args": desc, "stream": "same-object", "impl_same_object": repr(v0)[:300], "impl_copies": repr(v1)[:300]})
+
+
+def same_object_tasks(srng, quick):
+    bell = [b.astype(float) for b in BELL]
+    tasks = []
+    e00 = np.zeros(4)
+    e00[0] = 1.0
+    for X in (np.outer(bell[0], bell[0]), np.outer(e00, e00), np.zeros((4, 4)), np.arange(16).reshape(4, 4), np.eye(4) / 4, np.outer(bell[1], bell[1]).astype(complex)):
+        for sys in (0, 1):
+            tasks.append(("pt", (X, sys, (2, 2))))
+    tasks.append(("same", ([b.reshape(-1, 1) for b in bell[:3]], 0, 1, "symmetric_extension_hierarchy", 0, None)))
+    tasks.append(("same", (bell[:3], 0, 2, "ppt_distinguishability", 0, None)))
+    tasks.append(("same", ([np.outer(b, b) for b in bell], 1, 3, "ppt_distinguishability", 1, [0.25] * 4)))
+    tasks.append(("same", ([b.reshape(-1, 1) for b in bell[:2]], 0, 1, "ppt_distinguishability", 0, [0.5, 0.5])))
+    for t in range(6 if quick else 30):
+        hier = (t == 0) if quick else (t % 6 == 0)
+        inst = gen_instance(srng, True, forms=("col",) if hier else ("vec1d", "col", "dm", "dm_mixed"), dims_pool=[(2, 2)])
+        i, j = (int(x) for x in srng.choice(inst["k"], size=2, replace=False))
+        tasks.append(("same", (inst["states"], i, j, "symmetric_extension_hierarchy" if hier else "ppt_distinguishability", int(srng.integers(2)), list(inst["probs"]) if inst["probs_given"] else None)))
+    return tasks
+
+
 def run(ctx, model_ok=True):
     rng = ctx.rng
     quick = ctx.tier == "quick"
@@ -1618,6 +1685,8 @@ def run(ctx, model_ok=True):
     run_pool(ctx, work_hierarchy, hier)
     # feasibility embedding of exact separable measurements into the captured problems of the hierarchy
     symext_embedding(ctx, quick, prs)
+    # same-object / strict-fp streams: seeded from a child generator, so the streams above do not shift
+    run_pool(ctx, work_same_object, same_object_tasks(rng.spawn(1)[0], quick))
     nfail = sum(v for kk, v in ctx.hist.items() if kk.startswith("ppt/primal") and "solver-numerical-failure" in kk)
     nprim = sum(v for kk, v in ctx.hist.items() if kk.startswith("ppt/primal"))
     ndfail = sum(v for kk, v in ctx.hist.items() if kk.startswith("ppt/dual") and "solver-numerical-failure" in kk)
@@ -1642,6 +1711,14 @@ def replay(ctx, rec):
         return
     if a.get("fn") in ("symext_args", "ppt_dispatch"):
         check_args(ctx)
+        return
+    if a.get("fn") == "same_object":
+        res = Result()
+        if a["kind"] == "pt":
+            work_same_object(("pt", (arr(a["X"]), a["sys"], a["dims"])), res)
+        else:
+            work_same_object(("same", ([arr(x) for x in a["states"]], a["i"], a["j"], a["function"], a["sys"], a["probs"])), res)
+        fold(ctx, res)
         return
     inst = {"dA": a["dA"], "dB": a["dB"], "k": a["k"], "cplx": a["cplx"], "form": a["form"], "kind": a.get("kind", "random"), "probs": a["probs"],
             "probs_given": a.get("probs_given", True), "states": [arr(s) for s in a["states"]],
